@@ -8,9 +8,9 @@
 
   Both flavours of `Core` refine the same abstract allocator, whose answers do not depend on the flavour.
   The history covers the allocation calls, drops/detaches/deallocs, discard_freelist,
-  set_minimum_segment_size and increase_discarded; `rewind` and `clear` are the same function of the state in
-  both flavours by definition of the model (`rewind`, `clear` take no flavour argument) — the correspondence
-  run compares the two real arenas on those as well.
+  set_minimum_segment_size, increase_discarded and clear (`truncate` exists for `unsync::Arena` only and is
+  excluded by `hnt`); `rewind` is the same function of the state in both flavours by definition of the model
+  (`rewind` takes no flavour argument) — the correspondence run compares the two real arenas on it as well.
 -/
 import RarenaVerif.Props.Common
 
@@ -31,9 +31,11 @@ theorem run_sync (c : Cfg) (b : Bool) (h : HState) (l : List HOp) : h.run { c wi
 theorem allocBytes_sync (c : Cfg) (b : Bool) (a : A) (n : Nat) :
     a.allocBytes { c with sync := b } n = a.allocBytes c n := rfl
 
+-- CHANGED (histories now contain `truncate`, a method of `unsync::Arena` only): hypothesis `hnt` added — the
+-- comparison is over the calls both flavours have (`clear` is one of them).
 /-- same handles (offsets, capacities, buffer extents), same scalars, same free list after every history -/
 theorem equivalent (o : Opts) (g : Guards o) (fuel : Nat) (hfuel : o.cap + 2 ≤ fuel) (ops : List COp)
-    (hops : ∀ op ∈ ops, COp.ok op) (ss su : St)
+    (hops : ∀ op ∈ ops, COp.ok op) (hnt : ∀ op ∈ ops, op.isTruncate = false) (ss su : St)
     (hs : (flavours o).1.init = some ss) (hu : (flavours o).2.init = some su) :
     ∃ xs xu frees freeu,
       crun (flavours o).1.cfg fuel (CSess.start ss) ops = .ok xs ∧
@@ -48,9 +50,9 @@ theorem equivalent (o : Opts) (g : Guards o) (fuel : Nat) (hfuel : o.cap + 2 ≤
   have hcs : ss.cap = o.cap := congrArg A.cap rs.abs
   have hcu : su.cap = o.cap := congrArg A.cap ru.abs
   obtain ⟨xs, frees, es, rels, _⟩ := sim_run (flavours o).1.cfg _ _ [] ops fuel rs rfl hops
-    (by show ss.cap + 2 ≤ fuel; omega)
+    (fun op hop => COp.fits_of_not_truncate (hnt op hop)) (by show ss.cap + 2 ≤ fuel; omega)
   obtain ⟨xu, freeu, eu, relu, _⟩ := sim_run (flavours o).2.cfg _ _ [] ops fuel ru rfl hops
-    (by show su.cap + 2 ≤ fuel; omega)
+    (fun op hop => COp.fits_of_not_truncate (hnt op hop)) (by show su.cap + 2 ≤ fuel; omega)
   have hrun : (HState.init (flavours o).2.cap (flavours o).2.dataOffset (flavours o).2.minSeg).run
         (flavours o).2.cfg (ops.filterMap COp.abs) =
       (HState.init (flavours o).1.cap (flavours o).1.dataOffset (flavours o).1.minSeg).run
